@@ -20,6 +20,31 @@ type Rule func(c *core.Ctx)
 
 var Registry = map[string]Rule{}
 
+var wiringFuncs = map[string]func(*core.Ctx, string){
+	"snps.SNPs": wiringSNPs, "updown.List": wiringList, "closest.Closest+ClosestN": wiringClosest, "sam.ToMultiAlign": wiringToMultiAlign,
+	"sam.ToPairAlign": wiringToPairAlign, "updown.TopRanking": wiringTopRanking, "sam.Variants": wiringSamVariants, "variants.Variants": wiringVariants,
+}
+
+// wiringProps: the entry points whose wiring carries each property's behaviour (Engine E).
+var wiringProps = map[string][]string{
+	"C01": {"sam.ToMultiAlign"}, "C02": {"sam.ToPairAlign"}, "C03": {"snps.SNPs"}, "C04": {"variants.Variants", "sam.Variants"},
+	"C05": {"sam.Variants", "variants.Variants"}, "C06": {"closest.Closest+ClosestN"}, "C07": {"closest.Closest+ClosestN"},
+	"C08": {"updown.TopRanking"}, "C09": {"updown.TopRanking"}, "C10": {"updown.List"},
+	"C11": {"sam.Variants", "variants.Variants", "sam.ToPairAlign", "sam.ToMultiAlign"}, "C12": {"snps.SNPs", "updown.List"},
+	"C13": {"snps.SNPs", "variants.Variants", "sam.Variants"}, "C14": {"variants.Variants", "sam.Variants"},
+	"C15": {"sam.ToMultiAlign", "sam.ToPairAlign", "variants.Variants", "sam.Variants"},
+	"C18": {"snps.SNPs", "updown.List", "closest.Closest+ClosestN", "sam.ToMultiAlign", "sam.ToPairAlign", "updown.TopRanking", "sam.Variants", "variants.Variants"},
+	"C19": {"snps.SNPs", "updown.List", "closest.Closest+ClosestN", "sam.ToMultiAlign", "sam.ToPairAlign", "updown.TopRanking", "sam.Variants", "variants.Variants"},
+}
+
+// argRolePkgs: the packages whose internal calls carry each property's options (argument-role rule; nil = all).
+var argRolePkgs = map[string][]string{
+	"C01": {"pkg/sam", "pkg/fastaio"}, "C02": {"pkg/sam"}, "C03": {"pkg/snps"}, "C04": {"pkg/variants", "pkg/sam"},
+	"C05": {"pkg/variants", "pkg/sam"}, "C06": {"pkg/closest"}, "C07": {"pkg/closest"}, "C08": {"pkg/updown"},
+	"C09": {"pkg/updown"}, "C10": {"pkg/updown"}, "C11": {"pkg/variants", "pkg/sam"}, "C13": {"pkg/variants", "pkg/sam", "pkg/snps"},
+	"C14": {"pkg/variants", "pkg/genbank", "pkg/gff"}, "C15": {"pkg/variants", "pkg/sam", "pkg/fastaio"}, "C18": nil, "C19": nil,
+}
+
 // register adds the property's rule; the command-layer contract (Engine D) of the commands that expose
 // the property's behaviour is checked with it (C18, C19: every command).
 func register(id string, r Rule) {
@@ -33,6 +58,15 @@ func register(id string, r Rule) {
 					break
 				}
 			}
+		}
+		if ws := wiringProps[id]; len(ws) > 0 {
+			c.Explanation("Engine E (pipeline wiring): the entry points " + strings.Join(ws, ", ") + " are interpreted in the sequential pipeline model (go = run to completion, made channels are queues, select takes the first case with a value pending) with every stage function (any repository function with a channel parameter) and the synchronous readers/region builders replaced by recorders. Per scenario of the entry point's parameters: the multiset of stages started with their scalar, data and stream arguments equals the specified wiring; the entry point returns nil when all stages complete; it returns an error when any single stage reports one on the error channel; invalid windows / reference counts fail before any worker starts.")
+			for _, w := range ws {
+				wiringFuncs[w](c, "E")
+			}
+		}
+		if pk, ok := argRolePkgs[id]; ok {
+			c.Count("positional_calls_checked", checkArgumentRoles(c, "A", pk...))
 		}
 		if len(paths) > 0 {
 			c.Explanation("Engine D (command layer): the RunE literal of " + strings.Join(paths, ", ") + " is interpreted under scenarios of flag values (every flag distinct and non-default; all defaults; each boolean on/off; each input unopenable; command-specific option values; each repeated with the library call failing), with cobra/pflag/os modelled, gfio.OpenIn/OpenOut interpreted from source and every exported library function replaced by a recorder. Obligations: the recorded call equals the call specified over the user-visible flag names (entry point, each argument position, each file opened for reading / created-and-truncated / standard stream); invalid option values and unopenable files make RunE fail before any library call; an error from the library call is what RunE returns (deferred calls included).")
